@@ -64,6 +64,11 @@ Definition sizes_positive (t : list (pystr * Z)) : bool := forallb (fun kv => 0 
 
 Definition bp_subset_of_all (bp all : list pystr) : bool := forallb (fun d => Dtype_mem d all) bp.
 
+(* the persisted string of torch.X is "torch.X" (what str(dtype) prints) *)
+Definition Dtype_torch_prefix : pystr := Dtype_of_string "torch."%string.
+Definition strings_canonical (t : list (pystr * pystr)) : bool :=
+  forallb (fun kv => Dtype_str_eqb (snd kv) (Dtype_torch_prefix ++ fst kv)) t.
+
 Definition Dtype_disjoint (a b : list pystr) : bool := forallb (fun d => negb (Dtype_mem d b)) a.
 
 (* ---- observations for the correspondence harness ---------------------------------------------------------- *)
